@@ -298,6 +298,10 @@ class Type4Tag(nfc.tag.Tag):
             log.debug("ndef file read flag is %d", rf)
             log.debug("ndef file write flag is %d", wf)
 
+            if mfs < tag - 2:
+                log.error("ndef file size limit is less than the nlen field")
+                return False
+
             self._max_le = mle
             self._max_lc = mlc
             self._capacity = mfs - tag + 2
@@ -329,11 +333,19 @@ class Type4Tag(nfc.tag.Tag):
 
                 nlen = unpack(lfmt, nlen)[0]
                 log.debug("ndef data length is {0}".format(nlen))
+                if nlen > self._capacity:
+                    log.warning("ndef data length exceeds the file size")
+                    return None
 
                 data = bytearray()
                 while len(data) < nlen:
                     offset = self._nlen_size + len(data)
-                    data += self._read_binary(offset, nlen - len(data))
+                    part = self._read_binary(offset, nlen - len(data))
+                    if len(part) == 0:
+                        log.warning("no data returned by read binary")
+                        return None
+                    data += part
+                del data[nlen:]
 
             except Type4TagCommandError:
                 return None
